@@ -30,8 +30,23 @@ def gen_case_dag(seed, tier, index=0, restart_bias=False):
     durs = [rr.choice([0.3, 2.0, 8.0, 20.0])] if tie else [0.3, 2.0, 8.0, 20.0]
     hook = {}
     use_hook_file = rr.random() < 0.3
+    # "fast verdict" profile: producers reach FAILED / SHUTDOWN within a scheduler period (tiny run times, no engine
+    # launch delay, exits whose verdict needs no 25 s stability sleep: Killed, Cancelled, ResourceExhausted with
+    # maxRestarts 0), so that a final state can land between two scheduler passes and before finishedCheck()
+    fast = rr.random() < 0.3
+    observed = set()
+    for c in comps:
+        if c.get('repeat'):
+            for r in c.get('refs') or []:
+                observed.add(r.split('.')[-1])
+    if fast:
+        durs = [0.05, 0.3]
     for c in comps:
         name = c['name']
+        if fast and (name in observed or rr.random() < 0.3) and not c.get('repeat'):
+            c['maxRestarts'] = 0
+            if rr.random() < 0.4:
+                c['shutdownOn'] = rr.sample(['Killed', 'Cancelled', 'ResourceExhausted'], rr.choice([1, 2]))
         if rr.random() < (0.6 if restart_bias else 0.15):
             programs.gen_restart_attrs(rr, c)
         nexec = rr.choice([1, 2, 4, 8]) if not restart_bias else rr.choice([4, 8, 12])
@@ -40,8 +55,17 @@ def gen_case_dag(seed, tier, index=0, restart_bias=False):
         if rr.random() < 0.1:
             exits += ['Killed', 'Cancelled']
         pfail = min(0.9, fail_p + (0.4 if restart_bias else 0.0))
+        if fast and c.get('maxRestarts') == 0 and not c.get('repeat'):
+            exits = ['Killed', 'Cancelled', 'ResourceExhausted']
+            pfail = 0.7 if name in observed else 0.4
         plan[name] = {'default': programs.gen_exec(rr, 0.0, durs),
                       'execs': [programs.gen_exec(rr, pfail, durs, exits, lf) for _ in range(nexec)]}
+        if c.get('replicate') and rr.random() < 0.6:
+            # replicas that fare differently (exact key = name + replica index): partial shutdown / failure of a replicated set
+            for ri in range(repl):
+                plan['%s%d' % (name, ri)] = {'default': programs.gen_exec(rr, 0.0, durs),
+                                             'execs': [programs.gen_exec(rr, min(0.9, pfail + 0.3), durs, exits, lf)
+                                                       for _ in range(rr.choice([1, 2, 4]))]}
         if c.get('repeat'):
             plan[name]['default']['dur'] = rr.choice([0.3, 2.0, 5.0])
             for e in plan[name]['execs']:
@@ -58,8 +82,47 @@ def gen_case_dag(seed, tier, index=0, restart_bias=False):
             stage_opts[str(s)] = {'continue-on-error': 1}
     knobs = common.knobs_from(rr, tier)
     knobs['workers'] = rr.choice([None, None, 1, 2, 4])
+    if fast:
+        knobs['launch_delay'] = 0.0
     return {'comps': comps, 'stage_opts': stage_opts, 'plan': plan, 'hook': hook, 'hook_file': use_hook_file,
             'knobs': knobs, 'sched_seed': rr.getrandbits(48)}
+
+
+def gen_case_observer_race(seed, tier, index=0):
+    """small profile aimed at one window: a same-stage subject reaches FAILED / SHUTDOWN / FINISHED after it was
+    launched but before its not-yet-submitted observer is scheduled (and before finishedCheck() recorded it)"""
+    rr = random.Random(seed)
+    comps = []
+    plan = {}
+    nsub = rr.choice([1, 1, 2])
+    for i in range(nsub):
+        name = 'ST'[i]
+        c = {'name': name, 'stage': 0, 'refs': [], 'maxRestarts': 0}
+        if rr.random() < 0.5:
+            c['shutdownOn'] = rr.sample(['Killed', 'Cancelled', 'ResourceExhausted'], rr.choice([1, 2, 3]))
+        if rr.random() < 0.25:
+            c['replicate'] = 2
+        comps.append(c)
+        plan[name] = {'default': {'dur': 0.05, 'exit': 'Success'},
+                      'execs': [{'dur': rr.choice([0.01, 0.05, 0.3, 2.0]),
+                                 'exit': rr.choice(['Killed', 'Cancelled', 'ResourceExhausted', 'Success'])}]}
+        if rr.random() < 0.3:
+            plan[name]['execs'][0]['launch_fail'] = rr.choice(['valueerror', 'joblaunch'])
+    obs = {'name': 'O', 'stage': 0, 'refs': [c['name'] for c in comps],
+           'repeat': {'interval': rr.choice([1, 3]), 'retries': rr.choice([None, 0, 1])}}
+    if any(c.get('replicate') for c in comps) and rr.random() < 0.5:
+        obs['aggregate'] = True
+    comps.append(obs)
+    plan['O'] = {'default': {'dur': 0.3, 'exit': 'Success'}}
+    if rr.random() < 0.4:
+        comps.append({'name': 'N', 'stage': 0, 'refs': ['O'] if rr.random() < 0.5 else [comps[0]['name']]})
+        plan['N'] = {'default': {'dur': 0.3, 'exit': 'Success'}}
+    knobs = common.knobs_from(rr, tier)
+    knobs['launch_delay'] = 0.0
+    knobs['stall_p'] = rr.choice([0.0, 0.002, 0.01, 0.03])
+    knobs['workers'] = rr.choice([None, 1, 2])
+    return {'comps': comps, 'stage_opts': {}, 'plan': plan, 'hook': {}, 'hook_file': False, 'knobs': knobs,
+            'sched_seed': rr.getrandbits(48)}
 
 
 def gen_case_restart(seed, tier, index=0):
@@ -98,6 +161,12 @@ def gen_case_restart(seed, tier, index=0):
             elif rr.random() < lf:
                 e['launch_fail'] = rr.choice(['oserror', 'joblaunch', 'joblaunch', 'valueerror'])
             execs.append(e)
+        if rr.random() < 0.4 and on:
+            # a streak: the same restartable exit many times in a row (what exhausts a restart budget), then success
+            r = rr.choice(on)
+            streak = rr.choice([3, 4, 5, 7, 12])
+            execs = [({'dur': 0.3, 'exit': 'Success', 'launch_fail': 'joblaunch'} if r == 'SubmissionFailed'
+                      else {'dur': rr.choice([0.3, 2.0]), 'exit': r}) for _ in range(streak)]
         plan[name] = {'default': {'dur': 1.0, 'exit': 'Success'}, 'execs': execs}
         if c.get('restartHookFile') or use_hook_file:
             hook[name] = [rr.choice(['Possible', 'Possible', 'Possible', 'Possible', 'HookNotAvailable', 'NotRequired',
@@ -244,26 +313,29 @@ def history_of(ev):
 
 
 def externally_stopped(ev):
-    """components that the controller stopped while they were running (finish() on a RUNNING component)"""
+    """components that the controller stopped (finish() that is not the verdict of the component's own
+    postMortemCheck): while running, or while their own post-mortem check was still deliberating"""
     out = {}
     for e in ev:
-        if e[2] == 'finish' and e[4]['state'] == 'running' and e[3] not in out:
+        if e[2] == 'finish' and e[3] not in out and (e[4]['state'] == 'running' or
+                                                    (e[4]['state'] == 'checking' and not e[4].get('via_pm'))):
             out[e[3]] = e[0]
     return out
 
 
 def effective_exit(node, hist):
     """exit reason of the component as the documented rules see it, from the observed executions"""
-    if not hist:
-        return None
     if node['repeat']:
-        # a repeating engine reports the exit of the last task it actually ran (a failed launch leaves none behind)
-        ran = [x for x in hist if not x.get('launch_failed')]
+        # a repeating engine reports the exit of the last task it actually ran (a failed launch leaves none behind);
+        # one that stops without ever running a task (nothing to consume, retries used up - C13's business) reports Success
+        ran = [x for x in (hist or []) if not x.get('launch_failed')]
         if not ran:
             return 'Success'
         if ran[-1]['reason'] is None:
             return None
         return 'ResourceExhausted' if ran[-1]['reason'] == 'ResourceExhausted' else 'Success'
+    if not hist:
+        return None
     last = hist[-1]
     if last['reason'] is None:
         return None
@@ -389,7 +461,14 @@ def oracle_c02(nodes, ev, outcomes, states_end, states_settled, stop, viol, rec,
         nd = nodes[n]
         if nd['stage'] not in stages_run:
             continue
-        pst = {p: model.get(p) for p in nd['preds']}
+        # producers whose fate the rules leave open (stopped from outside, undefined-at-launch observers): what they
+        # actually became decides for their consumers, provided it is one of the allowed outcomes
+        pst = {}
+        for p in nd['preds']:
+            mp = model.get(p)
+            if isinstance(mp, set) and states_settled.get(p) in mp:
+                mp = states_settled.get(p)
+            pst[p] = mp
         cand = None
 
         def soft_edge(p):  # same-stage subject of a repeating observer: its fate is undefined at the observer's launch
@@ -435,11 +514,11 @@ def oracle_c02(nodes, ev, outcomes, states_end, states_settled, stop, viol, rec,
             continue
         st = rule_state(nd, reason)
         if n in ext:
-            # the controller stopped it while running: 'Killed' is not the component's own exit
-            model[n] = {'component_shutdown', st} if st != 'failed' else {'component_shutdown'}
-            if reason not in ('Killed',) and st == 'failed' and hist[n][-1]['exit_seq'] is not None \
-                    and hist[n][-1]['exit_seq'] < ext[n]:
-                model[n] = 'failed'
+            # the controller stopped it: shut down, or (its own verdict having landed first) its rule-given state;
+            # 'Killed' after the stop is not the component's own exit
+            h_n = hist.get(n) or []
+            own = bool(h_n) and h_n[-1]['exit_seq'] is not None and h_n[-1]['exit_seq'] < ext[n]
+            model[n] = {'component_shutdown', st} if own else {'component_shutdown'}
             continue
         if st == 'failed':
             unrecoverable.append(n)
@@ -518,7 +597,7 @@ def classify_hang(nodes, ev, stuck):
         if st == 'checking':
             restarted = any(e[2] == 'restart' and (e[4] or {}).get('code') == 'RestartInitiated' for e in evs)
             stopped = any(e[2] == 'finish' and e[4]['state'] == 'running' for e in evs)
-            last_kinds = [k for k in kinds if k in ('launch', 'launch-fail', 'exit', 'restart')]
+            last_kinds = [k for k in kinds if k in ('launch', 'launch-fail', 'exit')]
             stale = [e[0] for e in evs if e[2] == 'postMortemCheck' and e[4].get('exitReason') is None]
             last_exit = max([e[0] for e in evs if e[2] in ('exit', 'launch-fail')] or [0])
             last_pm = max([e[0] for e in evs if e[2] == 'postMortemCheck'] or [0])
@@ -614,7 +693,9 @@ def oracle_c12(nodes, ev, states_settled, stop, viol, rec, stages_done):
                 V('restarts:repeating-engine-restarted-more-than-once', {'component': n, 'count': len(rl)})
             for x in rl:
                 idx = h.index(x)
-                prev = h[idx - 1]['reason'] if idx > 0 else None
+                # the engine's exit is that of the last task it actually ran (a failed submission leaves none behind)
+                ran_before = [y for y in h[:idx] if not y.get('launch_failed')]
+                prev = ran_before[-1]['reason'] if ran_before else None
                 if prev != 'ResourceExhausted':
                     V('relaunch:repeating-engine-restarted-after-%s' % prev, {'component': n})
         # nothing is launched once the component has received its final state
